@@ -685,8 +685,14 @@ def run_program(spec):
         with _quiet():
             world = World(spec)
     except Exception as e:
-        out["error"] = "construction: %s: %s" % (type(e).__name__, e)
-        out["trace"] = traceback.format_exc()[-2000:]
+        if type(e).__name__ in ("SyntaxError", "NameError", "KeyError") and "vsc" not in traceback.format_exc()[-600:]:
+            out["error"] = "construction: %s: %s" % (type(e).__name__, e)
+            out["trace"] = traceback.format_exc()[-2000:]
+            return out
+        # a program of the generated families is legal pyvsc: an exception while its classes are declared / objects constructed comes
+        # from the library (replayed without the mirror before it is reported)
+        out["findings"].append({"kind": "other_exception", "what": "constructing the program's objects raised %s: %s" % (type(e).__name__, str(e)[:300]),
+                                "op": -1, "call": ["construct"], "tb": traceback.format_exc()[-1500:]})
         return out
     out["src"] = world.src
     for oi, op in enumerate(spec["ops"]):
@@ -770,6 +776,11 @@ def decide_call(world, spec, oi, op, q, opts, SolveFailure):
         fm_path = dict(_state.get("fm_path_snap") or {})
         fm_path.update(world.fm_paths())
     except Exception as e:
+        if str(e).startswith("model field"):
+            # an attribute the class declares (and the user reads and writes) has no counterpart in the object's model: it can never be
+            # random and constraints naming it are not about it
+            return {"summary": {"op": oi, "error": "fm_paths: %s" % e}, "findings": [
+                {"kind": "model_field_missing", "what": "a declared field is not part of the object's model: %s" % e, "op": oi, "call": op}], "fatal": True}
         return {"summary": {"op": oi, "error": "fm_paths: %s" % e}, "findings": [
             {"kind": "harness", "what": "cannot map model fields to paths: %s" % e}], "fatal": True}
     A, unmapped, facts, subs = extract_hard(instances, fm_path, env)
@@ -979,6 +990,13 @@ def replay_finding(spec, finding):
     import vsc
     from vsc.model.solve_failure import SolveFailure
     assert not _installed[0], "replay must run without the mirror"
+    if finding.get("call") == ["construct"]:
+        try:
+            with _quiet():
+                World(spec)
+        except Exception as e:
+            return True, "constructing the program's objects raised %s: %s" % (type(e).__name__, str(e)[:200])
+        return False, "construction succeeded"
     with _quiet():
         world = World(spec)
     oi = finding["op"]
